@@ -142,6 +142,21 @@ theorem C16_callback_once {ns nt} {s : St} {t : Tid} {sz : Nat} {ec cbs : List O
   obtain ⟨hsuf, hnd⟩ := hw rfl (reachable_hasCb h)
   exact count_one_of_nodup hnd (suffix_mem hsuf hk)
 
+/-- **C16_callback_once (the object being destroyed).** With a callback installed and no throw: when an object's
+last reference was the `ecall` vector of a destroyObjects call (its `dying` frame — destructor about to start — sits
+directly on that call's clearing frame), the call has completed that object's callback exactly once. -/
+theorem C16_callback_once_dying {ns nt} {s : St} {t : Tid} {k : ObjId} {sz : Nat} {ec cbs : List ObjId}
+    {rest : List Frame} (h : Reachable true ns nt s)
+    (hfs : s.stk t = .dying k :: .dClear sz ec cbs false :: rest) : cbs.count k = 1 := by
+  have hI := inv_reachable h
+  have hcb := reachable_hasCb h
+  have ha := hI.adjI t
+  rw [hfs] at ha
+  have hsuf := ha.1 rfl hcb
+  have hw := hI.wf t (.dClear sz ec cbs false) (by rw [hfs]; simp)
+  obtain ⟨_, hnd⟩ := hw rfl hcb
+  exact count_one_of_nodup hnd (suffix_mem hsuf List.mem_cons_self)
+
 /-- the callbacks of one call run over its `ecall` vector front to back, one per entry, no entry twice; when the last
 one returns, the completed callbacks are exactly the `ecall` vector -/
 theorem C16_callback_order {cb ns nt} {s : St} {t : Tid} (h : Reachable cb ns nt s) :
